@@ -1297,9 +1297,10 @@ def tsf_part(run, runner):
     scn += scen(["  targetForceConstant 4.0", "  targetNumSteps 4", "  lambdaExponent 2"], 8, 1)   # continuous k
     scn += scen(["  targetCenters 3.0", "  targetNumSteps 4", "  targetNumStages 2"], 12, 2)    # staged centres: moves due at steps 1, 5, 9
     scn += scen(["  targetForceConstant 4.0", "  targetNumSteps 3", "  targetNumStages 2"], 8, 3)   # staged k: stage ends at 3, 6
+    scn += scen(["  targetCenters 3.0", "  targetNumSteps 3"], 8, 4)                          # continuous centres, N not a multiple of f
     rc2, iout, e2 = V.run_lines(runner.unit, scn, cwd=runner.scratch)
     impl = parse_impl(iout)
-    for k in range(4):
+    for k in range(5):
         cs = impl.get(k)
         run.dist("timeStepFactor")
         if cs is None or not cs["complete"] or any("err=ok" not in l for l in cs["config"]):
@@ -1314,6 +1315,15 @@ def tsf_part(run, runner):
                 want = 1.0 + 2.0 * min(1.0, tu / 4.0)
                 if not close(o["C"][0], want):
                     run.violation("timestepfactor:continuous-centers", "timeStepFactor 2, step %d: centre %r, schedule at the last updated step %d prescribes %r" % (t, o["C"][0], tu, want), rp)
+            elif k == 4:
+                # theorem C06_center_schedule_timestepfactor: centre = schedule at last_update = f*(min(t, t0+N)/f) = 2 for t >= 2
+                lu = 2 * (min(t, 3) // 2)
+                model = 1.0 + 2.0 * min(1.0, lu / 3.0)
+                if not close(o["C"][0], model):
+                    run.violation("timestepfactor:continuous-centers", "timeStepFactor 2, N 3, step %d: centre %r, the schedule at the last update not beyond the end (%d) gives %r" % (t, o["C"][0], lu, model), rp)
+                want = 1.0 + 2.0 * min(1.0, tu / 3.0)
+                if not close(o["C"][0], want):
+                    run.violation("timestepfactor:continuous-schedule-stops-short", "timeStepFactor 2, centres 1->3, targetNumSteps 3, step %d: centre %r, schedule at the last updated step %d prescribes %r (the target is never reached)" % (t, o["C"][0], tu, want), rp)
             elif k == 1:
                 want = 2.0 + 2.0 * min(1.0, tu / 4.0) ** 2
                 if not close(o["K"], want):
